@@ -128,8 +128,10 @@ func MergeAll[T any]() func(Observable[Observable[T]]) Observable[T] {
 				// when equal to 0, it means both the outer and inner Observables are done
 				if newCount == 0 {
 					parentCtxMu.Lock()
-					destination.CompleteWithContext(parentCtx)
+					ctx := parentCtx
 					parentCtxMu.Unlock()
+
+					destination.CompleteWithContext(ctx)
 				}
 			}
 
